@@ -67,11 +67,23 @@ def TRef.head : TRef → RefHead
   | .app1 h _ => h
   | .app2 h _ _ => h
 
+/-- an applied annotation: `@name` / `@ns.name` -/
+structure ARef where
+  ns : Option String
+  name : String
+  deriving DecidableEq, Repr, Inhabited
+
+/-- what an annotation definition instantiates: a built-in annotation type, or a custom one -/
+inductive AnnotKind where
+  | deprecated | omitted | preview | redacted | custom
+  deriving DecidableEq, Repr, Inhabited
+
 /-- a struct field / union tag; `ty = none` is an `AstVoidField` -/
 structure AField where
   name : String
   ty : Option TRef
   hasDefault : Bool := false
+  annots : List ARef := []
   deriving DecidableEq, Repr, Inhabited
 
 inductive TypeKind where
@@ -110,9 +122,11 @@ inductive Decl where
   | alias (name : String) (ref : TRef)
   | route (r : RouteDecl)
   | imp (target : String)
-  | annot (name : String)
+  | annot (name : String) (kind : AnnotKind)
   | annotType (name : String)
   | patch (p : PatchDecl)
+  /-- the annotations applied to the alias `name` (carried beside its declaration) -/
+  | aliasAnnots (name : String) (annots : List ARef)
   deriving DecidableEq, Repr, Inhabited
 
 structure File where
@@ -196,6 +210,10 @@ inductive Err where
   | subtypeExtended
   -- routes
   | routeTwoTypes | undefinedRoute | notRoute
+  -- annotations applied to members and aliases
+  | annotNotExist | annotNotRecognized | aliasAnnotUnsupported
+  | deprecatedTwice | omittedTwice | previewTwice | redactorTwice | deprecatedPreview
+  | redactorOnAliasRef | redactorAlready | redactorOnUser
   -- not `InvalidSpec`
   | crash (e : PyExc)     -- an exception of another class
   | outOfFuel             -- the recursion bound of `populate` was hit: no verdict
@@ -210,7 +228,8 @@ inductive Item where
   | type (d : TypeDecl)
   | alias (r : TRef)
   | routes (versions : List Int)      -- `ApiRoutesByVersion`
-  | other                             -- annotation / annotation type
+  | other                             -- annotation type
+  | annot (k : AnnotKind)             -- annotation
   deriving DecidableEq, Repr, Inhabited
 
 /-- the state after registration and imports; nothing later changes it -/
@@ -261,7 +280,7 @@ def bindNew (st : RegSt) (ns name : String) (i : Item) (c : FeNames.Cls) : Excep
 def regDecl (st : RegSt) (ns : String) : Decl → Except Err RegSt
   | .type d => bindNew st ns d.name (.type d) .type
   | .alias name r => bindNew st ns name (.alias r) .alias
-  | .annot name => bindNew st ns name .other .annotation
+  | .annot name k => bindNew st ns name (.annot k) .annotation
   | .annotType name =>
     match lookupSym st.items ns name with
     | some _ => .error .symbolDefined
@@ -270,6 +289,7 @@ def regDecl (st : RegSt) (ns : String) : Decl → Except Err RegSt
       else checkCanon { st with items := ((ns, name), .other) :: st.items } .annotationType name ns false
   | .imp _ => .ok st
   | .patch _ => .ok st          -- kept in `_patch_data_by_canonical_name` for later
+  | .aliasAnnots _ _ => .ok st  -- part of the alias declaration
   | .route r =>
     match lookupSym st.items ns r.name with
     | some (.item (.routes vs)) =>
@@ -454,6 +474,7 @@ def headLookup (E : Env) (cur : String) (h : RefHead) : Except Err (String × En
 def nonClass (ens : String) (h : RefHead) (hasArgs : Bool) : Entry → Except Err Ty
   | .item (.routes _) => .error .routeRef
   | .item .other => .error .notDataType
+  | .item (.annot _) => .error .notDataType
   | .ns _ => .error .notDataType
   | .builtin _ => .error .internal
   | .item (.type _) => if hasArgs then .error .attrsOnUser else .ok (.user (ens, h.name))
@@ -1018,7 +1039,197 @@ def compileCore (rx : String → Bool) (fs : List File) : Except Err Api :=
   | .error e => .error e
   | .ok E => compileEnv rx E
 
+
+/-! ## Views of the Api used by the statements -/
+
+def Api.ns? (api : Api) (n : String) : Option NsOut := api.nss.find? (·.name == n)
+
+def Api.type? (api : Api) (k : Key) : Option CType := (api.ns? k.1).bind (·.types.lookup k.2)
+
+def Api.alias? (api : Api) (k : Key) : Option Ty := (api.ns? k.1).bind (·.aliases.lookup k.2)
+
+def Api.hasType (api : Api) (k : Key) : Bool := (api.type? k).isSome
+def Api.hasAlias (api : Api) (k : Key) : Bool := (api.alias? k).isSome
+
+/-- every type expression of the Api, with where it stands -/
+def NsOut.tys (n : NsOut) : List Ty :=
+  n.types.flatMap (fun p => p.2.fields.map (·.ty)) ++ n.aliases.map (·.2)
+    ++ n.routes.flatMap (fun r => [r.arg, r.result, r.error])
+
+def Api.tys (api : Api) : List Ty := api.nss.flatMap (·.tys)
+
+/-- every parent link and enumerated-subtype link -/
+def NsOut.links (n : NsOut) : List Key :=
+  n.types.filterMap (·.2.parent) ++ n.enums.flatMap (fun p => p.2.1.map (·.2))
+
+def Api.links (api : Api) : List Key := api.nss.flatMap (·.links)
+
+/-- the closure statement, decidable: every (namespace, name) mentioned anywhere is a data type, respectively an
+alias, the Api holds in that namespace -/
+def Api.closed (api : Api) : Bool :=
+  api.tys.all (fun t => t.users.all api.hasType && t.aliases.all api.hasAlias) && api.links.all api.hasType
+
 def allPairs (fs : List File) : List (String × Decl) := fs.flatMap fun f => f.decls.map fun d => (f.ns, d)
+
+/-! ## Annotations applied to members and aliases
+
+`_resolve_annotation_type`, `Field.set_annotations`, `Alias.set_annotations`, `_validate_annotations`
+(`_validate_field_can_be_tagged_with_redactor`, `_validate_object_can_be_tagged_with_redactor`).  The code applies
+the annotations while it creates each member in pass 3 and validates the redactors in a last pass; the model runs all
+of it as one stage after the type passes, on the resolved types (`checkAnnots`): the same verdict -- when a spec breaks
+an annotation rule AND a type rule that pass 3 meets later, the code reports the annotation rule, the model the type
+rule.  The stage is written over the functions it looks things up with (`ra`: what an applied annotation names,
+`look`: the target of an alias, `types`: the compiled type under a key), so that the specification level uses the very
+same tests with the specification-level maps.  Arguments of annotation definitions and annotation types are not
+modelled; `Omitted`'s caller is taken to be non-empty. -/
+
+/-- `_resolve_annotation_type`: the environment entry an applied annotation names -/
+def resolveAnnot (E : Env) (cur : String) (a : ARef) : Except Err Entry :=
+  match headLookup E cur { ns := a.ns, name := a.name, kw := [], nullable := false } with
+  | .ok (_, e) => .ok e
+  | .error .undefinedSymbol => .error .annotNotExist
+  | .error e => .error e
+
+def annKindOf : Entry → Option AnnotKind
+  | .item (.annot k) => some k
+  | _ => none
+
+def raE (E : Env) (cur : String) (a : ARef) : Except Err (Option AnnotKind) :=
+  match resolveAnnot E cur a with
+  | .ok e => .ok (annKindOf e)
+  | .error e => .error e
+
+def mapE {α β} (g : α → Except Err β) : List α → Except Err (List β)
+  | [] => .ok []
+  | x :: xs => match g x with
+    | .error e => .error e
+    | .ok y => match mapE g xs with
+      | .error e => .error e
+      | .ok ys => .ok (y :: ys)
+
+structure AnnFlags where
+  dep : Bool := false
+  pre : Bool := false
+  omi : Bool := false
+  red : Bool := false
+  deriving DecidableEq, Repr, Inhabited
+
+/-- one iteration of the loop of `Field.set_annotations`; `none` = the name is not an annotation -/
+def fieldAnnStep (fl : AnnFlags) : Option AnnotKind → Except Err AnnFlags
+  | some .deprecated =>
+    if fl.dep then .error .deprecatedTwice else if fl.pre then .error .deprecatedPreview else .ok { fl with dep := true }
+  | some .omitted => if fl.omi then .error .omittedTwice else .ok { fl with omi := true }
+  | some .preview =>
+    if fl.pre then .error .previewTwice else if fl.dep then .error .deprecatedPreview else .ok { fl with pre := true }
+  | some .redacted => if fl.red then .error .redactorTwice else .ok { fl with red := true }
+  | some .custom => .ok fl
+  | none => .error .annotNotRecognized
+
+def fieldAnn (fl : AnnFlags) : List (Option AnnotKind) → Except Err AnnFlags
+  | [] => .ok fl
+  | k :: ks => match fieldAnnStep fl k with
+    | .error e => .error e
+    | .ok fl' => fieldAnn fl' ks
+
+/-- `Alias.set_annotations`: only redactors and custom annotations; the result says whether a redactor is set -/
+def aliasAnn (red : Bool) : List (Option AnnotKind) → Except Err Bool
+  | [] => .ok red
+  | some .redacted :: ks => if red then .error .redactorTwice else aliasAnn true ks
+  | some .custom :: ks => aliasAnn red ks
+  | _ :: _ => .error .aliasAnnotUnsupported
+
+/-- the annotation lists applied to the alias `name` of namespace `ns` -/
+def aliasAnnotsOf (fs : List File) (ns name : String) : List ARef :=
+  (declsOf fs ns).flatMap fun d =>
+    match d with
+    | .aliasAnnots n as => if n == name then as else []
+    | _ => []
+
+/-- `alias.redactor` is set -/
+def aliasRedacted (ra : String → ARef → Except Err (Option AnnotKind)) (fs : List File) (k : Key) : Bool :=
+  (aliasAnnotsOf fs k.1 k.2).any fun a =>
+    match ra k.1 a with
+    | .ok (some .redacted) => true
+    | _ => false
+
+/-- the `while isinstance(curr_data_type, (Alias, Nullable))` walk of `_validate_object_can_be_tagged_with_redactor` -/
+def redWalk (look : Look) (red : Key → Bool) : Nat → Ty → Except Err (Option Ty)
+  | fuel, t =>
+    match stripNullable t with
+    | .alias k =>
+      if red k then .error .redactorAlready else
+      (match fuel with
+       | 0 => .error .fuelAlias
+       | f + 1 => match look k with
+         | none => .ok none
+         | some t' => redWalk look red f t')
+    | u => .ok (some u)
+
+/-- through the values of lists and maps (and nullables on the way) -/
+def redDescend : Ty → Ty
+  | .list e _ _ => redDescend e
+  | .map _ v => redDescend v
+  | .nullable t => redDescend t
+  | t => t
+
+def Ty.isUser : Ty → Bool
+  | .user _ => true
+  | _ => false
+
+/-- `_validate_object_can_be_tagged_with_redactor` on the type of a redacted member / the target of a redacted alias -/
+def redactorOK (look : Look) (red : Key → Bool) (fuel : Nat) (t : Ty) : Except Err Unit :=
+  match redWalk look red fuel t with
+  | .error e => .error e
+  | .ok none => .ok ()
+  | .ok (some u) =>
+    let leaf := redDescend u
+    if leaf.isUser || leaf.isVoid then .error .redactorOnUser else .ok ()
+
+/-- the annotations of one member, and the redactor validation of `_validate_field_can_be_tagged_with_redactor` -/
+def memberAnnots (ra : String → ARef → Except Err (Option AnnotKind)) (look : Look) (red : Key → Bool) (fuel : Nat)
+    (ns : String) (c : Option CType) (f : AField) : Except Err Unit :=
+  match mapE (ra ns) f.annots with
+  | .error e => .error e
+  | .ok kinds =>
+    match fieldAnn {} kinds with
+    | .error e => .error e
+    | .ok fl =>
+      if !fl.red then .ok () else
+      match c.bind fun c => c.fields.find? (·.name == f.name) with
+      | none => .error .internal
+      | some cf =>
+        if (match cf.ty with | .alias _ => true | _ => false) then .error .redactorOnAliasRef
+        else redactorOK look red fuel cf.ty
+
+def firstErr {α} (g : α → Except Err Unit) : List α → Except Err Unit
+  | [] => .ok ()
+  | x :: xs => match g x with
+    | .error e => .error e
+    | .ok () => firstErr g xs
+
+def declAnnots (ra : String → ARef → Except Err (Option AnnotKind)) (look : Look) (types : Key → Option CType)
+    (red : Key → Bool) (fuel : Nat) (ns : String) : Decl → Except Err Unit
+  | .type d => firstErr (memberAnnots ra look red fuel ns (types (ns, d.name))) d.fields
+  | .aliasAnnots n as =>
+    match mapE (ra ns) as with
+    | .error e => .error e
+    | .ok kinds =>
+      match aliasAnn false kinds with
+      | .error e => .error e
+      | .ok false => .ok ()
+      | .ok true =>
+        match look (ns, n) with
+        | none => .ok ()
+        | some t => redactorOK look red fuel t
+  | _ => .ok ()
+
+/-- all annotation tests over the (merged) files -/
+def checkAnnotsG (ra : String → ARef → Except Err (Option AnnotKind)) (look : Look) (types : Key → Option CType)
+    (fuel : Nat) (fs : List File) : Except Err Unit :=
+  firstErr (fun p => declAnnots ra look types (aliasRedacted ra fs) fuel p.1 p.2) (allPairs fs)
+
+def checkAnnots (E : Env) (fs : List File) (api : Api) : Except Err Unit :=
+  checkAnnotsG (raE E) (fun k => api.alias? k) (fun k => api.type? k) (aliasFuel E) fs
 
 /-! ## Patches: `_merge_patches`
 
@@ -1080,36 +1291,15 @@ def compile (rx : String → Bool) (fs : List File) : Except Err Api :=
   | .error e => .error e
   | .ok E => match checkPatches E [] (patchesOf fs) with
     | .error e => .error e
-    | .ok () => compileCore rx (mergeFiles fs)
-
-/-! ## Views of the Api used by the statements -/
-
-def Api.ns? (api : Api) (n : String) : Option NsOut := api.nss.find? (·.name == n)
-
-def Api.type? (api : Api) (k : Key) : Option CType := (api.ns? k.1).bind (·.types.lookup k.2)
-
-def Api.alias? (api : Api) (k : Key) : Option Ty := (api.ns? k.1).bind (·.aliases.lookup k.2)
-
-def Api.hasType (api : Api) (k : Key) : Bool := (api.type? k).isSome
-def Api.hasAlias (api : Api) (k : Key) : Bool := (api.alias? k).isSome
-
-/-- every type expression of the Api, with where it stands -/
-def NsOut.tys (n : NsOut) : List Ty :=
-  n.types.flatMap (fun p => p.2.fields.map (·.ty)) ++ n.aliases.map (·.2)
-    ++ n.routes.flatMap (fun r => [r.arg, r.result, r.error])
-
-def Api.tys (api : Api) : List Ty := api.nss.flatMap (·.tys)
-
-/-- every parent link and enumerated-subtype link -/
-def NsOut.links (n : NsOut) : List Key :=
-  n.types.filterMap (·.2.parent) ++ n.enums.flatMap (fun p => p.2.1.map (·.2))
-
-def Api.links (api : Api) : List Key := api.nss.flatMap (·.links)
-
-/-- the closure statement, decidable: every (namespace, name) mentioned anywhere is a data type, respectively an
-alias, the Api holds in that namespace -/
-def Api.closed (api : Api) : Bool :=
-  api.tys.all (fun t => t.users.all api.hasType && t.aliases.all api.hasAlias) && api.links.all api.hasType
+    | .ok () =>
+      match compileCore rx (mergeFiles fs) with
+      | .error e => .error e
+      | .ok api =>
+        match buildEnv (mergeFiles fs) with
+        | .error e => .error e
+        | .ok E' => match checkAnnots E' (mergeFiles fs) api with
+          | .error e => .error e
+          | .ok () => .ok api
 
 /-! ## Specification level: what the declarations mean (docs/lang_ref.rst) -/
 
@@ -1295,10 +1485,11 @@ def declItem : Decl → Option FeNames.Item
   | .type d => some { kind := .type, name := d.name.toList }
   | .alias n _ => some { kind := .alias, name := n.toList }
   | .route r => some { kind := .route r.version, name := r.name.toList }
-  | .annot n => some { kind := .annotation, name := n.toList }
+  | .annot n _ => some { kind := .annotation, name := n.toList }
   | .annotType n => some { kind := .annotationType, name := n.toList }
   | .imp _ => none
   | .patch _ => none
+  | .aliasAnnots _ _ => none
 
 /-- the files as the name rules of C01 see them -/
 def toNames (fs : List File) : List FeNames.File :=
@@ -1326,10 +1517,11 @@ def anyName : Decl → Option String
   | .type d => some d.name
   | .alias n _ => some n
   | .route r => some r.name
-  | .annot n => some n
+  | .annot n _ => some n
   | .annotType n => some n
   | .imp _ => none
   | .patch _ => none
+  | .aliasAnnots _ _ => none
 
 /-- `name` means something in namespace `ns`: an imported namespace, a definition, a built-in type -/
 def known (fs : List File) (ns name : String) : Bool :=
@@ -1544,10 +1736,41 @@ of the patch is a declared member of the type or a member of another patch of it
 def patchesLegal (fs : List File) : Bool :=
   (patchesOf fs).all (fun q => patchStatic fs q.1 q.2) && pairwiseB patchesDisjoint (patchesOf fs)
 
+/-! ## Annotations at the specification level -/
+
+/-- the annotation definition called `name` in namespace `ns` -/
+def annotDefS (fs : List File) (ns name : String) : Option AnnotKind :=
+  ((declsOf fs ns).filterMap fun d =>
+    match d with
+    | .annot n k => if n == name then some k else none
+    | _ => none).head?
+
+/-- what an applied annotation names: an annotation definition of the namespace or of an imported one; a name that
+means something else (a type, a route, an imported namespace ...) is no annotation -/
+def raS (fs : List File) (cur : String) (a : ARef) : Except Err (Option AnnotKind) :=
+  let found (ens : String) : Except Err (Option AnnotKind) :=
+    if imported fs ens a.name then .ok none
+    else if !known fs ens a.name then .error .annotNotExist
+    else .ok (annotDefS fs ens a.name)
+  match a.ns with
+  | some q =>
+    if imported fs cur q then found q
+    else if known fs cur q then .error .notNamespace else .error .nsNotImported
+  | none => found cur
+
+/-- the rules for applied annotations: every `@name` is an annotation; on a member at most one `Deprecated`, one
+`Preview` (never both), one `Omitted`, one redactor; on an alias only redactors (at most one) and custom annotations; a
+redactor is applied to an alias definition, not to a member whose type is an alias; the annotated type (aliases and
+nullables unfolded) carries no redactor of its own and is, through lists and maps, neither a struct / union nor Void -/
+def annotsLegal (rx : String → Bool) (fs : List File) : Bool :=
+  (allPairs fs).all fun p =>
+    isOk (declAnnots (raS fs) (aliasS rx fs) (typeS rx fs) (aliasRedacted (raS fs) fs) (fuelA fs) p.1 p.2)
+
 /-- what the spec files denote: the declarations with their patches merged -/
 def denote (rx : String → Bool) (fs : List File) : Option Api := denoteCore rx (mergeFiles fs)
 
 /-- the set of spec files obeys every rule -/
-def Legal (rx : String → Bool) (fs : List File) : Bool := patchesLegal fs && LegalCore rx (mergeFiles fs)
+def Legal (rx : String → Bool) (fs : List File) : Bool :=
+  patchesLegal fs && LegalCore rx (mergeFiles fs) && annotsLegal rx (mergeFiles fs)
 
 end StoneVerif.FeCompile
